@@ -354,6 +354,34 @@ def replayLine (s : DState) (op : String) (mid : Nat) (args : List String) (orc 
       | some p => finF (resolveEmptF (fun e => Map.drainFilterFusedOut m p fuse { o with empt := e }) glObs)
   | "freplace", [k, kid] => nat k fun k => nat kid fun kid => needMap fun m =>
       finF (resolveEmptF (fun e => Map.replaceFusedOut m k kid { o with empt := e }) glObs)
+  -- hashbrown's raw table driven directly (`extra hb`): the contract model `HB` of GriddleModel/Table.lean alone
+  | "hbnew", [cap] => nat cap fun cap =>
+      match HB.tryWithCapacity c cap with
+      | .ok t => .ok (setMap s mid { main := t, lo := none }) (obsFields { main := t, lo := none } { cost := { allocs := if t.allocated then 1 else 0 } })
+      | .error .overflow => .fault (.panic .capacityOverflow)
+      | .error .alloc => .fault .abort
+  | "hbinsng", [k] => nat k fun k => needMap fun m =>
+      let run (hit : Bool) : Except Fault (Map × Out) :=
+        (m.main.insertNoGrow ⟨k, 0, 0, 0⟩ hit).map (fun t => ({ m with main := t }, {}))
+      fin (resolveHits (fun h => run (decide (0 < h))) glObs 1)
+  | "hbins", [k] => nat k fun k => needMap fun m =>
+      let run (hit : Bool) : Except Fault (Map × Out) :=
+        (m.main.insertGrowable c ⟨k, 0, 0, 0⟩ hit).map (fun (t, cost) => ({ m with main := t }, { cost := cost }))
+      fin (resolveHits (fun h => run (decide (0 < h))) glObs 1)
+  | "hbrem", [k] => nat k fun k => needMap fun m =>
+      let run (e : Bool) : Except Fault (Map × Out) :=
+        (m.main.removeKey k e).map (fun (t, _) => ({ m with main := t }, {}))
+      fin (resolveEmpt (fun e => run (decide (0 < e))) glObs)
+  | "hbclear", [] => needMap fun m =>
+      fin (.ok ({ m with main := m.main.clear.1 }, {}))
+  | "hbshrink", [n] => nat n fun n => needMap fun m =>
+      fin ((m.main.shrinkTo c n).map (fun (t, cost) => ({ m with main := t }, { cost := cost })))
+  | "hbclone", [src] => nat src fun src =>
+      match getMap s src with
+      | none => .bad "no src"
+      | some sm =>
+        let (t, cost) := sm.main.cloneWith id
+        fin (.ok ({ main := t, lo := none }, { cost := cost }))
   | "setalg", [] =>
       -- stateless: the set-operation adaptors of src/set.rs against `GriddleModel/Set.lean`
       let a := SetAlg.viewOfIter (fieldList orc "ai") (fieldNat orc "al")
